@@ -18,9 +18,10 @@
 //! * `tail_cases` — methods whose *last* instruction is a multi-byte one (so the end-of-code label is not "last
 //!   opcode + 1") with exception, line-number, local-variable and type-annotation entries that end at the end of the code.
 
-//! * `patched_code_cases`, `split_table_cases` — descriptions that exist only because the reader accepts more than a
-//!   class file may state (equal lookupswitch keys, zero dimensions) or merges several attributes into one list
-//!   (a line-number table of 65534 … 65538 entries): see the functions.
+//! * `patched_code_cases`, `split_table_cases`, `merged_table_cases` — descriptions that exist only because the reader
+//!   accepts more than a class file may state (equal lookupswitch keys, zero dimensions) or merges several attributes
+//!   into one list (line numbers, local variables with a descriptor / with a signature, annotations and type annotations
+//!   of every element: 65534 … 65538 entries): see the functions.
 
 use cfmodel::asm::{Encoding, PoolOrder};
 use cfmodel::gen::*;
@@ -368,6 +369,137 @@ pub fn split_table_cases() -> Vec<(String, Vec<u8>, usize)> {
 		out[code.start + 2..code.start + 6].copy_from_slice(&(old_len + extra as u32).to_be_bytes());
 		let total = parts * per_part;
 		v.push((format!("split-tables/line-numbers/{parts}x{per_part}/{}", if total > 65_535 { "entries-over-65535" } else { "entries-fit" }), out, total));
+	}
+	v
+}
+
+/// `bytes` with each named attribute (the first one of that name; together they must be *all* attributes of their
+/// container, in this order) repeated `parts` times: the container's attributes_count and the attribute_length of every
+/// enclosing attribute are adjusted.
+fn replicate(bytes: &[u8], p: &cfmodel::Parsed, names: &[(&str, usize)]) -> Option<Vec<u8>> {
+	let spans: Vec<&cfmodel::parse::AttrSpan> = names.iter().map(|(n, _)| p.attribute_spans.iter().find(|s| s.name == *n)).collect::<Option<_>>()?;
+	let first = spans.first()?.start;
+	let count_at = first.checked_sub(2)?;
+	if u16::from_be_bytes([bytes[count_at], bytes[count_at + 1]]) as usize != names.len() || spans.windows(2).any(|w| w[0].start + w[0].len != w[1].start) {
+		return None;
+	}
+	let mut out = bytes[..first].to_vec();
+	let mut extra = 0usize;
+	for (s, (_, parts)) in spans.iter().zip(names) {
+		for _ in 0..*parts {
+			out.extend_from_slice(&bytes[s.start..s.start + s.len]);
+		}
+		extra += (parts - 1) * s.len;
+	}
+	let end = spans.last().map(|s| s.start + s.len)?;
+	out.extend_from_slice(&bytes[end..]);
+	out[count_at..count_at + 2].copy_from_slice(&(names.iter().map(|(_, k)| *k).sum::<usize>() as u16).to_be_bytes());
+	for e in p.attribute_spans.iter().filter(|e| e.start < first && first < e.start + e.len) {
+		let at = e.start + 2;
+		let old = u32::from_be_bytes([out[at], out[at + 1], out[at + 2], out[at + 3]]);
+		out[at..at + 4].copy_from_slice(&(old + extra as u32).to_be_bytes());
+	}
+	Some(out)
+}
+
+/// Every list the reader accumulates over repeated attributes — so that a tree it produces can hold more entries than the
+/// u16 count of the one attribute the writer states the list in:
+///
+/// * LocalVariableTable, LocalVariableTypeTable (several per Code attribute are legal, JVMS 4.7.13/14): each alone and
+///   both in one method (the reader keeps ONE list of variables, entries with a descriptor and entries with a signature
+///   are counted separately by a writer);
+/// * Runtime(In)VisibleAnnotations on a class, a field, a method, a record component and Runtime(In)VisibleTypeAnnotations
+///   on these and on a Code attribute: a class file may have only one of each per element, but the reader accepts several
+///   and appends — descriptions only a lenient reader produces (`strict` = false: the reference parser need not accept
+///   the input; the output is judged as always).
+///
+/// Totals 65534, 65535 (written whole or refused cleanly), 65536, 65538 (no file can state them in one attribute). Built as
+/// `split_table_cases`: the class with one attribute of `per_part` entries is assembled, the attribute bytes are repeated.
+/// Returns (label, bytes, largest total of one list, strict).
+pub fn merged_table_cases() -> Vec<(String, Vec<u8>, usize, bool)> {
+	let mut v = Vec::new();
+	let lv = |n: usize, ty: &str| -> Vec<SLocalVar> {
+		let mut t: Vec<SLocalVar> = (0..n).map(|i| SLocalVar { start: (i % 8) as Idx, end: (i % 8 + 1) as Idx, name: js(["a", "b", "c"][i % 3]), ty: js(ty), index: (i % 5) as u16 }).collect();
+		t.sort();
+		t
+	};
+	let code_class = |f: &dyn Fn(&mut SCode)| -> SClass {
+		let mut c = class_with_method("p/Merged", (0..8).map(|_| SInsn::Simple(op::NOP)).chain([RETURN]).collect());
+		if let Some(code) = &mut c.methods[0].code {
+			f(code);
+		}
+		c
+	};
+	// `split`: per attribute name (parts, entries per part); the model is built with the per-part size (one size per case)
+	let mut push = |kind: &str, strict: bool, model: &dyn Fn(usize) -> SClass, names: &[&str], splits: &[Vec<(usize, usize)>]| {
+		for split in splits {
+			let c = model(split[0].1);
+			let Ok(bytes) = cfmodel::asm::assemble(&c, &Encoding::default()) else { continue };
+			let Ok(p) = cfmodel::parse(&bytes) else { continue };
+			let spec: Vec<(&str, usize)> = names.iter().copied().zip(split.iter().map(|(parts, _)| *parts)).collect();
+			let Some(out) = replicate(&bytes, &p, &spec) else { continue };
+			let total = split.iter().map(|(parts, per)| parts * per).max().unwrap_or(0);
+			let shape: Vec<String> = split.iter().map(|(parts, per)| format!("{parts}x{per}")).collect();
+			v.push((format!("split-tables/{kind}/{}/{}", shape.join("+"), if total > 65_535 { "entries-over-65535" } else { "entries-fit" }), out, total, strict));
+		}
+	};
+	let one = |list: &[(usize, usize)]| -> Vec<Vec<(usize, usize)>> { list.iter().map(|x| vec![*x]).collect() };
+	let standard = one(&[(2, 32_767), (3, 21_845), (2, 32_768), (3, 21_846)]);
+	push("local-variables", true, &|n| code_class(&|c| c.local_vars = lv(n, "I")), &["LocalVariableTable"], &standard);
+	push("local-variable-types", true, &|n| code_class(&|c| c.local_var_types = lv(n, "TT;")), &["LocalVariableTypeTable"], &standard);
+	// both kinds in one method: 65535 of each fits; 65536 of one kind does not, however few the other has
+	let both = |n: usize| code_class(&|c| {
+		c.local_vars = lv(n, "I");
+		c.local_var_types = lv(n, "TT;");
+	});
+	push("local-variables+types", true, &both, &["LocalVariableTable", "LocalVariableTypeTable"], &[
+		vec![(3, 21_845), (3, 21_845)], vec![(4, 16_384), (1, 16_384)], vec![(1, 16_384), (4, 16_384)], vec![(3, 21_846), (3, 21_846)],
+	]);
+	let an = |n: usize| -> Vec<SAnnotation> { (0..n).map(|i| SAnnotation { type_name: js(["Lp/A;", "Lp/B;"][i % 2]), pairs: Vec::new() }).collect() };
+	let tan = |n: usize, target: STarget| -> Vec<STypeAnnotation> { (0..n).map(|i| STypeAnnotation { target: target.clone(), path: if i % 2 == 0 { vec![] } else { vec![(0, 0)] }, annotation: SAnnotation { type_name: js("Lp/TA;"), pairs: Vec::new() } }).collect() };
+	let edge = one(&[(3, 21_845), (2, 32_768)]);
+	for visible in [true, false] {
+		let (a_name, t_name) = if visible { ("RuntimeVisibleAnnotations", "RuntimeVisibleTypeAnnotations") } else { ("RuntimeInvisibleAnnotations", "RuntimeInvisibleTypeAnnotations") };
+		let put = move |a: &mut SAnnotations, anns: Vec<SAnnotation>, tanns: Vec<STypeAnnotation>| {
+			if visible {
+				a.visible = anns;
+				a.visible_type = tanns;
+			} else {
+				a.invisible = anns;
+				a.invisible_type = tanns;
+			}
+		};
+		let holder = |place: &str, anns: Vec<SAnnotation>, tanns: Vec<STypeAnnotation>| -> SClass {
+			let mut c = skeleton("p/Merged");
+			match place {
+				"class" => put(&mut c.annotations, anns, tanns),
+				"field" => {
+					let mut f = SField { access: 0x0001, name: js("f"), desc: js("I"), ..Default::default() };
+					put(&mut f.annotations, anns, tanns);
+					c.fields.push(f);
+				},
+				"method" => {
+					c.access = 0x0421;
+					let mut m = SMethod { access: 0x0401, name: js("m"), desc: js("()V"), ..Default::default() };
+					put(&mut m.annotations, anns, tanns);
+					c.methods.push(m);
+				},
+				_ => {
+					let mut rc = SRecordComponent { name: js("rc"), desc: js("I"), ..Default::default() };
+					put(&mut rc.annotations, anns, tanns);
+					c.record = Some(vec![rc]);
+				},
+			}
+			c
+		};
+		for (place, target) in [("class", STarget::Supertype(65_535)), ("field", STarget::Empty(0x13)), ("method", STarget::Empty(0x14)), ("record-component", STarget::Empty(0x13))] {
+			push(&format!("{place}-{a_name}"), false, &|n| holder(place, an(n), Vec::new()), &[a_name], &edge);
+			push(&format!("{place}-{t_name}"), false, &|n| holder(place, Vec::new(), tan(n, target.clone())), &[t_name], &edge);
+		}
+		push(&format!("code-{t_name}"), false, &|n| code_class(&|c| {
+			let t = tan(n, STarget::Offset { target_type: 0x44, at: 0 });
+			if visible { c.visible_type = t } else { c.invisible_type = t }
+		}), &[t_name], &edge);
 	}
 	v
 }
